@@ -5,6 +5,32 @@ import time
 from .core import Unit
 
 
+def reveal_search(reg, c, info, seed):
+    """a proof with opaque spec functions failed: look for a concrete failing input by verifying the same function again with
+    every spec function revealed (short budget; only confirmed, natively replayed violations are taken from this run)"""
+    import copy
+    from .pyvc.verify import verify_contract
+    c2 = copy.copy(c)
+    c2.opaque = set()
+    c2.instances = {}
+    try:
+        info2 = verify_contract(reg, c2, timeout_ms=12000, seed=seed, budget_s=float(os.environ.get('VERIF_REVEAL_BUDGET_S', '150')))
+    except Exception:      # noqa
+        return
+    confirmed = [r for r in info2['results'] if r.status == 'violated' and r.replayed]
+    if not confirmed:
+        return
+    by_clause = {}
+    for r in confirmed:
+        by_clause.setdefault((r.kind, r.clause), r)
+    anyc = confirmed[0]
+    for r in info['results']:
+        if r.status == 'violated' and r.needs_reveal:
+            m = by_clause.get((r.kind, r.clause), anyc)
+            r.witness, r.replayed, r.replay = m.witness, True, m.replay
+            r.detail += ' | concrete failing input found with the spec functions revealed (obligation %s): confirmed by native replay' % m.oid
+
+
 def pyvc_unit(prop, uid, build_registry, targets, timeout_ms=None, tiers=('quick', 'thorough'), weight=1, tag=None, fix=None):
     """targets: list of contract target names (all verified in one worker, sharing the registry)"""
 
@@ -27,6 +53,8 @@ def pyvc_unit(prop, uid, build_registry, targets, timeout_ms=None, tiers=('quick
             out['functions'].append({'target': t, 'engine': 'PYVC', 'status': 'proved' if ok else info['status'] if info['status'] != 'ok' else 'not-proved',
                                      'source': info.get('source'), 'paths': info.get('paths'), 'obligations': nres,
                                      'entry_states': info.get('entry_states'), 'seconds': round(info.get('seconds', 0), 2)})
+            if any(r.status == 'violated' and r.needs_reveal for r in info['results']):
+                reveal_search(reg, c, info, seed)
             if info['status'] != 'ok' and not info['results']:
                 out['results'].append({'id': '%s.%s.status' % (prop, t.replace('Crypto.', '')), 'kind': 'structure', 'clause': 'function verified',
                                        'status': 'error' if info['status'] == 'error' else 'undecided', 'backend': '', 'seconds': 0,
